@@ -277,10 +277,22 @@ def doc_corr(x, y, g):
 def run_named_tape(c):
     """stratified_two_sample with a named statistic on a scripted tape: arrangements predicted by the mirror"""
     g = np.array(c["g"]); cond = np.array(c["c"]); resp = np.array(c["resp"], dtype=float)
-    if c["fn"] == "s2s_mws":
+    if c["fn"] in ("s2s_mws", "spt"):
         resp = np.nan_to_num(resp)
     import random
     t = Tape(None, lazy(random.Random(c["seed"]), "random"))
+    if c["fn"] == "spt":
+        # default statistic of stratified_permutationtest: the stratified mean statistic of the CONDITIONS rearranged
+        # within groups (rows stay where they are)
+        r = guarded(lambda: stratified.stratified_permutationtest(g, cond, resp, alternative=c["alt"], reps=c["reps"], seed=t, plus1=c["plus1"]))
+        if r[0] != "ok":
+            return {"r": list(r)}
+        p, tst, d = r[1]
+        ans = [a for (_, a) in t.log]
+        exp = [doc_stat("s2s_mws", g.tolist(), cond.tolist(), resp.tolist())]
+        for _ in range(c["reps"]):
+            exp.append(doc_stat("s2s_mws", g.tolist(), m_pwg(cond.tolist(), g.tolist(), ans), resp.tolist()))
+        return {"r": ["ok", float(p), float(tst), [float(v) for v in d]], "expected": exp}
     st = {"s2s_mean": "mean", "s2s_t": "t", "s2s_mws": "mean_within_strata"}[c["fn"]]
     r = guarded(lambda: stratified.stratified_two_sample(g, cond, resp, stat=st, alternative=c["alt"], reps=c["reps"], keep_dist=True, seed=t, plus1=c["plus1"]))
     if r[0] != "ok":
@@ -297,7 +309,7 @@ def run_named_tape(c):
 
 def run_named(c):
     out = {}
-    if c["fn"] in ("s2s_mean", "s2s_t", "s2s_mws"):
+    if c["fn"] in ("s2s_mean", "s2s_t", "s2s_mws", "spt"):
         out["tape"] = run_named_tape(c)
     def one(tag, mk, gs):
         np.random.seed(gs); g0 = global_state()
@@ -455,7 +467,9 @@ def oracle(c, o):
     if f == "spt":
         if o["r"][0] != "ok": return {"why": f"stratified_permutationtest raised {o['r']}", "cls": "spt:raises"}
         if o["r"][3] is None:
-            return None if len(set(c["c"])) < 2 else {"why": "stratified_permutationtest returned no distribution", "cls": "spt:nodist"}
+            if len(set(c["c"])) >= 2:
+                return {"why": "stratified_permutationtest returned no distribution", "cls": "spt:nodist"}
+            return None if o["r"][1] == 1.0 else {"why": f"stratified_permutationtest with a single condition returned p = {o['r'][1]} (documented: 1.0, nan, None)", "cls": "spt:p-range"}
         if not o["unmodified"]: return {"why": "stratified_permutationtest modified its arguments", "cls": "spt:input-modified"}
         if not o["global_same"]: return {"why": "stratified_permutationtest advanced the global state", "cls": "spt:global-rng"}
         for v in o["rec"][1:]:
@@ -524,17 +538,20 @@ def oracle(c, o):
         if not o["unmodified"]: return {"why": "sim_corr modified its arguments", "cls": "sim_corr:input-modified"}
         if not o["global_same"]: return {"why": "sim_corr advanced the global state", "cls": "sim_corr:global-rng"}
         p, tst, d = o["r"][1:4]
-        if not all(math.isfinite(v) for v in d + [tst]): return None
         x = [float(F(v)) for v in c["x"]]; y = np.array([float(F(v)) for v in c["y"]]); g = np.array(c["g"])
         ans = [a for (_, a) in o["log"]]
         e0 = doc_corr(x, y, g)
-        if math.isfinite(e0) and abs(e0 - tst) > 1e-9 * (1 + abs(e0)):
+        want_bounds = [b for k in sorted(set(c["g"])) for b in range(c["g"].count(k), 0, -1)] * c["reps"]
+        if [b for (b, _) in o["log"]] != want_bounds:
+            return {"why": f"sim_corr requested draws with bounds {[b for (b, _) in o['log']][:12]}..., expected one Fisher-Yates pass per group and repetition {want_bounds[:12]}...", "cls": "sim_corr:draws-depend-on-data"}
+        if math.isfinite(e0) and not (abs(e0 - tst) <= 1e-9 * (1 + abs(e0))):
             return {"why": f"sim_corr: observed statistic {tst} is not the sum over groups of the Pearson correlations of the data as given ({e0}); groups {c['g']}", "cls": "sim_corr:observed-stat"}
         for k in range(c["reps"]):
             xp = np.array(m_pwg(x, c["g"], ans))
             e = doc_corr(xp, y, g)
-            if math.isfinite(e) and abs(e - d[k]) > 1e-9 * (1 + abs(e)):
+            if math.isfinite(e) and not (abs(e - d[k]) <= 1e-9 * (1 + abs(e))):      # a NaN where the documented value is finite fails too
                 return {"why": f"sim_corr: repetition {k} has statistic {d[k]} but the within-group re-pairing selected by the draws gives {e}", "cls": "sim_corr:wrong-rearrangement"}
+        if not all(math.isfinite(v) for v in d + [tst]): return None
         return tail_check("sim_corr", c["alt"], p, tst, d, c["plus1"])
     if f == "sptm":
         r = o["r"]
@@ -560,8 +577,9 @@ def oracle(c, o):
         for k, (gv, ev) in enumerate(zip(got, tp["expected"])):
             if math.isfinite(ev) and not (abs(gv - ev) <= 1e-9 * (1 + abs(ev))):
                 what = "observed statistic" if k == 0 else f"simulated value {k - 1}"
-                return {"why": f"stratified_two_sample(stat={name[4:]!r}): {what} = {gv} but the documented statistic on the {'data as given' if k == 0 else 'within-stratum rearrangement selected by the draws'} is {ev} (response={c['resp']})",
-                        "cls": f"stratified_two_sample:stat-option:{name[4:]}"}
+                fnn = "stratified_permutationtest (default statistic)" if name == "spt" else f"stratified_two_sample(stat={name[4:]!r})"
+                return {"why": f"{fnn}: {what} = {gv} but the documented statistic on the {'data as given' if k == 0 else 'within-stratum rearrangement selected by the draws'} is {ev} (response={c['resp']})",
+                        "cls": f"{CANON.get(name, name)}:stat-option:{name[4:] if name != 'spt' else 'mean'}"}
     rs = {k: v["r"] for k, v in o.items()}
     if any(v[0] != "ok" for v in rs.values()):
         return {"why": f"{name} raised: {[(k, v[:3]) for k, v in rs.items() if v[0] != 'ok']}", "cls": f"{name}:raises"}
